@@ -142,7 +142,7 @@ func (t *termCtx) tr(e ast.Expr) string {
 	case *ast.FuncLit:
 		return "funclit@" + c.pos(x.Pos())
 	case *ast.SliceExpr:
-		lo, hi := "", ""
+		lo, hi := "const:0", "" // x[:h] is x[0:h]
 		if x.Low != nil {
 			lo = t.tr(x.Low)
 		}
